@@ -26,7 +26,7 @@ EXHAUSTIVE = {"quick": False, "thorough": False}
 CORRESPONDENCE_ONLY = ["empty_like (shape only)", "dtype tags"]
 ASSUMPTIONS = []
 
-FUNCS = ["concat_rows", "concat_cols", "like", "nonzero", "where", "subset", "mask_index", "ragged_slice", "padded", "ragged_slice_nd"]
+FUNCS = ["concat_rows", "concat_mixed", "concat_cols", "like", "nonzero", "where", "subset", "mask_index", "ragged_slice", "padded", "ragged_slice_nd"]
 
 
 def _rand_mask(rng, lens):
@@ -57,6 +57,9 @@ def cases(rng, tier):
         vs = rng.randint(0, 9999)
         others = [rng.choice(shapes[:85]) for _ in range(rng.randint(0, 2))]
         out.append({"f": "concat_rows", "shapes": [lens] + others, "dtype": dt(), "vseed": vs})
+        # operands of DIFFERENT dtypes: numpy promotes (int32 + int64 -> int64, int + float -> float, uint8 + int8 -> int16)
+        oth = [rng.choice(shapes[:85]) for _ in range(rng.randint(1, 2))]
+        out.append({"f": "concat_mixed", "shapes": [lens] + oth, "dtypes": [dt() for _ in range(len(oth) + 1)], "dtype": "int64", "vseed": vs})
         same_rows = [[rng.randint(0, 3) for _ in range(n)] for _ in range(rng.randint(0, 2))]
         out.append({"f": "concat_cols", "shapes": [lens] + same_rows, "dtype": dt(), "vseed": vs})
         out.append({"f": "like", "lens": lens, "which": rng.choice(["zeros", "ones", "empty"]), "dtype": dt(), "vseed": vs})
@@ -92,7 +95,8 @@ def cases(rng, tier):
             ss = [rng.randint(0, c) for _ in range(r)]; es = [rng.randint(s, c) for s in ss]
             if rng.random() < 0.3:
                 es = [e - c if e < c else e for e in es]
-            out.append({"f": "ragged_slice_nd", "nd": 2, "r": r, "c": c, "starts": ss, "ends": es, "dtype": dt(), "vseed": rng.randint(0, 99)})
+            out.append({"f": "ragged_slice_nd", "nd": 2, "r": r, "c": c, "starts": ss, "ends": es, "dtype": dt(), "vseed": rng.randint(0, 99),
+                        "layout": rng.choice(["C", "F", "T", "strided"])})     # memory layout of the 2-D argument
     return out
 
 
@@ -141,6 +145,8 @@ def _setup(p):
         for s in p["shapes"]:
             arrs.append((pool[k:k + sum(s)], s)); k += sum(s)
         return arrs
+    if f == "concat_mixed":
+        return [(gens.cell_values(d, sum(sh), random.Random(p["vseed"] + 7 * i)), sh) for i, (sh, d) in enumerate(zip(p["shapes"], p["dtypes"]))]
     if f == "ragged_slice_nd":
         if p["nd"] == 1:
             return _pool(p, p["n"])
@@ -156,12 +162,20 @@ def run_impl(p):
         s = _setup(p)
         with np.errstate(all="ignore"), warnings.catch_warnings():
             warnings.simplefilter("ignore")
-            if f == "concat_rows":
+            if f in ("concat_rows", "concat_mixed"):
                 return np.concatenate([RaggedArray(v.copy(), list(l)) for v, l in s])
             if f == "concat_cols":
                 return np.concatenate([RaggedArray(v.copy(), list(l)) for v, l in s], axis=-1)
             if f == "ragged_slice_nd":
-                return ragged_slice(s, np.array(p["starts"]), np.array(p["ends"]))
+                arg = s
+                lay = p.get("layout", "C")
+                if lay == "F":
+                    arg = np.asfortranarray(s)
+                elif lay == "T":
+                    arg = s.T.copy().T
+                elif lay == "strided":
+                    arg = np.repeat(s, 2, axis=-1)[..., ::2]
+                return ragged_slice(arg, np.array(p["starts"]), np.array(p["ends"]))
             n = sum(p["lens"])
             ra = RaggedArray(s[:n].copy(), list(p["lens"]))
             if f == "like":
@@ -212,6 +226,11 @@ def oracle(p):
     s = _setup(p)
     if f == "concat_rows":
         return _ra([r for v, l in s for r in _rows_from(v, l)], dt)
+    if f == "concat_mixed":
+        rdt = np.result_type(*[v.dtype for v, _ in s])
+        with np.errstate(all="ignore"), warnings.catch_warnings():
+            warnings.simplefilter("ignore")
+            return _ra([r.astype(rdt) for v, l in s for r in _rows_from(v, l)], rdt)
     if f == "concat_cols":
         rs = [_rows_from(v, l) for v, l in s]
         n = min(len(r) for r in rs)
@@ -269,7 +288,7 @@ def lean_request(p):
             return {"op": "C08.struct", "f": "ragged_slice_1d", "a": list(range(p["n"])), "starts": p["starts"], "ends": p["ends"]}
         return {"op": "C08.struct", "f": "ragged_slice_2d", "rows": [list(range(i * p["c"], (i + 1) * p["c"])) for i in range(p["r"])],
                 "c": p["c"], "starts": p["starts"], "ends": p["ends"]}
-    if f == "like" and p["which"] == "empty":
+    if f == "concat_mixed" or (f == "like" and p["which"] == "empty"):
         return None
     rows = gens.rows_of_ids(p["lens"])
     n = sum(p["lens"])
